@@ -752,14 +752,20 @@ def roundtrip_mol(ctx, rng, m, version, default, container, edges=False, with_he
             return None
         if with_header and not header_first:
             f.header = mol.Header(**hkw)
-        buf = io.StringIO()
-        f.write(buf)
-        text = buf.getvalue()
+        reader = None
+        if ctx.index % 4 == 1:
+            from vf.core import through_disk
+            reader, text = through_disk(ctx, f, mol.MOLFile, False, ".mol", as_pathlib=ctx.index % 8 == 1)
+        else:
+            buf = io.StringIO()
+            f.write(buf)
+            text = buf.getvalue()
         lines = text.split("\n")
         if lines[-1] != "":
             ctx.fail("v2000_columns", "%s: written text does not end with a line break" % what)
         ctab_lines = lines[3:-1]
-        reader = mol.MOLFile.read(io.StringIO(text))
+        if reader is None:
+            reader = mol.MOLFile.read(io.StringIO(text))
         get = (lambda: reader.get_structure()) if container == "molfile" else (lambda: mol.get_structure(reader))
         get_header = lambda: reader.header
     else:
@@ -964,6 +970,9 @@ def case_sdf(rng, ctx):
         if via == "serialize":
             text = sd.serialize()
             sd2 = mol.SDFile.deserialize(text)
+        elif ctx.index % 2 == 1:
+            from vf.core import through_disk
+            sd2, text = through_disk(ctx, sd, mol.SDFile, False, ".sdf", as_pathlib=ctx.index % 4 == 1)
         else:
             buf = io.StringIO()
             sd.write(buf)
